@@ -118,6 +118,38 @@ def run(chk):
             lines.append("cmdenc %d %s" % (v["index"], v["assignment"]))
             mcases.append(v)
     chk.oblige("monitor:impl-reproduces-pinned-bytes(%d vectors)" % len(vecs["vectors"]), not drift, json.dumps(drift[:5]))
+    # "command headers identify command types one-to-one", on the decoding side: a frame is accepted only by the class
+    # its header names - not by the class of the same command id and the OTHER control type (request <-> response <->
+    # indication), nor by any other class
+    by_id = {}
+    for cls_name, (idx_, cls_) in table.items():
+        by_id.setdefault(int(cls_.header) >> 16, []).append(cls_)
+    cross_bad = None
+    n_cross = 0
+    for v in vecs["vectors"]:
+        if v["class"] not in table:
+            continue
+        _, a_cls = table[v["class"]]
+        body_b = bytes.fromhex(v["body"]) if v["body"] != "-" else b""
+        others = [k for k in by_id.get(int(a_cls.header) >> 16, []) if k is not a_cls]
+        for b_cls in others:
+            n_cross += 1
+            chk.evaluations += 1
+            try:
+                got = b_cls.from_frame(W.frame_with_body(a_cls, body_b))
+            except (ValueError, KeyError):
+                continue
+            except Exception as e:  # noqa
+                got = "raised %s" % type(e).__name__
+            if cross_bad is None:
+                cross_bad = (b_cls.__qualname__, a_cls.__qualname__, v["body"], str(got)[:160])
+                chk.violation("%s.from_frame accepts a frame whose header (0x%08X) names %s: body %s is decoded as %s"
+                              % (b_cls.__qualname__, int(a_cls.header), a_cls.__qualname__, v["body"], str(got)[:200]),
+                              {"decoding_class": b_cls.__qualname__, "frame_header": int(a_cls.header), "frame_class": a_cls.__qualname__,
+                               "body": v["body"]}, key="cross-decode:" + b_cls.__qualname__)
+    chk.count("cross_type_decodes", n_cross)
+    chk.oblige("monitor:a-frame-is-accepted-only-by-the-class-its-header-names(%d cross-type decodes)" % n_cross, cross_bad is None,
+               repr(cross_bad)[:300] if cross_bad else "")
     if model is not None:
         outs = model.batch(lines)
         mbad = [(v["class"], o, v["body"]) for v, o in zip(mcases, outs) if o != v["body"]]
